@@ -167,3 +167,199 @@ Proof.
   apply shex_post; try reflexivity; [apply generalize_exact_struct | agree|].
   intros cnt v _. apply tune_disable_exact.
 Qed.
+
+(** ** O4 — [all_compliant_mode].  The relaxation acts on each statement of
+    the non-compliant run: if its probability is not one, the cardinality
+    becomes [?]/[*], the probability the integer one, and the statement's own
+    figures become its first comment (unless comments are disabled).  The
+    statement order is the same: [tune] sorts before relaxing and does not
+    sort again.  Building the comment can fail ([tune_token]: ValueError). *)
+Definition relax_post (fa : FreqAlg) (cfg : scfg) (cnt : N) (s : stmt) : stmt + serr :=
+  if negb (feqb fa (pv fa cnt s) (fone fa)) then
+    match comment_of cfg s with
+    | inr e => inr e
+    | inl k =>
+      inl {| s_inv := s_inv s; s_prop := s_prop s; s_types := s_types s; s_choice := s_choice s;
+             s_card := relax_card cfg (s_card s); s_nocc := s_nocc s; s_prob := POne;
+             s_comments := if x_disable_comments cfg then [] else k :: s_comments s |}
+    end
+  else inl s.
+
+Definition relax_shape (fa : FreqAlg) (cfg : scfg) (sh : shape) : shape + serr :=
+  map_res (fun st => {| sh_name := sh_name sh; sh_class := sh_class sh; sh_n := sh_n sh; sh_stmts := st |})
+          (map_err (relax_post fa cfg (sh_n sh)) (sh_stmts sh)).
+
+(** the comment records the cardinality before [disable_exact_cardinality]
+    generalises it, so the per-statement description is exact when that
+    option is off or comments are dropped anyway *)
+Definition O4_dom (cfg : scfg) : Prop := x_disable_exact cfg = false \/ x_disable_comments cfg = true.
+
+Lemma ltb_1_neq k : N.ltb 1 k = true -> N.eqb k 1 = false.
+Proof. intros H. apply N.ltb_lt in H. apply N.eqb_neq. lia. Qed.
+
+Lemma relax_post_post1 fa cfg cnt s :
+  O4_dom cfg ->
+  relax_post fa cfg cnt (post1 cfg s) = map_res (post1 cfg) (relax fa cfg cnt s).
+Proof.
+  intros Hd. unfold relax_post, relax, post1, pv, comment_of, s_type, relax_card, generalize_exact, drop_comments.
+  destruct s as [i p t c k n pr cm]. simpl.
+  destruct (x_disable_exact cfg) eqn:Ede, (x_disable_comments cfg) eqn:Edc;
+    try (destruct Hd as [Hd|Hd]; congruence); simpl;
+    destruct (x_allow_opt cfg); simpl;
+    destruct k as [q| | |]; simpl; try destruct (N.ltb 1 q) eqn:Eq; simpl;
+    destruct c; simpl; try destruct (tune_token (x_ns cfg) (hd [] t)); simpl;
+    destruct (negb (feqb fa (pval fa cnt pr) (fone fa))); simpl;
+    rewrite ?Eq, ?(ltb_1_neq q) by assumption; simpl; rewrite ?Eq; try reflexivity;
+    destruct (N.eqb q 1); reflexivity.
+Qed.
+
+Lemma bind_map_res {A B C E} (r : A + E) (f : A -> B) (g : B -> C + E) :
+  bind_res (map_res f r) g = bind_res r (fun x => g (f x)).
+Proof. destruct r; reflexivity. Qed.
+
+Lemma tune_all_compliant fa cfg cnt v :
+  O4_dom cfg ->
+  tune fa (with_all_compliant true cfg) cnt v =
+  bind_res (tune fa (with_all_compliant false cfg) cnt v) (map_err (relax_post fa cfg cnt)).
+Proof.
+  intros Hd. rewrite !tune_eq. unfold relax_phase; simpl.
+  change (post1 (with_all_compliant true cfg)) with (post1 cfg).
+  change (post1 (with_all_compliant false cfg)) with (post1 cfg).
+  change (relax fa (with_all_compliant true cfg)) with (relax fa cfg).
+  rewrite map_err_map. symmetry. apply map_err_map_res. intros s _.
+  apply relax_post_post1. exact Hd.
+Qed.
+
+Lemma shex_class_all_compliant fa cfg thr counts ce :
+  O4_dom cfg ->
+  shex_class fa (with_all_compliant true cfg) thr counts ce =
+  bind_res (shex_class fa (with_all_compliant false cfg) thr counts ce) (relax_shape fa cfg).
+Proof.
+  intros Hd. rewrite !shex_class_eq.
+  change (class_sorted fa (with_all_compliant true cfg)) with (class_sorted fa (with_all_compliant false cfg)).
+  change (select_valid fa (with_all_compliant true cfg)) with (select_valid fa (with_all_compliant false cfg)).
+  destruct (select_valid _ _ _ (filter (fun s => negb (s_inv s)) _)) as [vd|e]; simpl; [|reflexivity].
+  destruct (select_valid _ _ _ (filter (fun s => s_inv s) _)) as [vi|e]; simpl; [|reflexivity].
+  rewrite (tune_all_compliant fa cfg _ _ Hd).
+  destruct (tune fa (with_all_compliant false cfg) _ (vd ++ vi)) as [st|e]; simpl; [|reflexivity].
+  unfold relax_shape; simpl. destruct (map_err _ st); reflexivity.
+Qed.
+
+(** the statement relation behind [relax_shape] *)
+Definition relaxed_of (fa : FreqAlg) (cfg : scfg) (n : N) (a b : stmt) : Prop :=
+  relax_post fa cfg n b = inl a.
+
+Lemma relaxed_of_sim fa cfg : stmt_sim (relaxed_of fa cfg).
+Proof.
+  intros n a b. unfold relaxed_of, relax_post. destruct (negb _).
+  - destruct (comment_of cfg b); [|discriminate]. intros H; inversion H; subst. simpl. repeat split.
+  - intros H; inversion H; subst. repeat split.
+Qed.
+
+Lemma relax_shape_rel fa cfg sh0 sh1 :
+  relax_shape fa cfg sh0 = inl sh1 <-> shape_rel (relaxed_of fa cfg) sh1 sh0.
+Proof.
+  unfold relax_shape, shape_rel. split.
+  - destruct (map_err _ (sh_stmts sh0)) as [st|e] eqn:E; simpl; [|discriminate].
+    intros H; inversion H; subst; simpl. repeat split.
+    apply map_err_Forall2 in E. clear H.
+    induction E as [|x y l r Hxy F IH]; constructor; assumption.
+  - intros (Hn & Hc & Hk & Hs).
+    assert (E : map_err (relax_post fa cfg (sh_n sh0)) (sh_stmts sh0) = inl (sh_stmts sh1)).
+    { apply map_err_Forall2. clear Hn Hc Hk. induction Hs as [|x y l r Hxy F IH]; constructor; assumption. }
+    rewrite E. simpl. destruct sh1; simpl in *. subst. reflexivity.
+Qed.
+
+Lemma map_err_relax_shape_rel fa cfg L0 L1 :
+  map_err (relax_shape fa cfg) L0 = inl L1 <-> Forall2 (shape_rel (relaxed_of fa cfg)) L1 L0.
+Proof.
+  rewrite map_err_Forall2. split; intros F.
+  - induction F as [|x y l r Hxy F IH]; constructor; [apply relax_shape_rel|]; assumption.
+  - induction F as [|x y l r Hxy F IH]; constructor; [apply relax_shape_rel|]; assumption.
+Qed.
+
+Lemma map_err_bind {A B E} (f : A -> B + E) (g : B -> B + E) l r1 :
+  map_err (fun x => bind_res (f x) g) l = inl r1 <->
+  exists r0, map_err f l = inl r0 /\ map_err g r0 = inl r1.
+Proof.
+  revert r1. induction l as [|x l IH]; simpl; intros r1.
+  - split.
+    + intros H; inversion H; subst. exists []. split; reflexivity.
+    + intros (r0 & H0 & H1). inversion H0; subst. exact H1.
+  - destruct (f x) as [y|e]; simpl.
+    + destruct (g y) as [z|e] eqn:Eg.
+      * destruct (map_err (fun x => bind_res (f x) g) l) as [zs|e] eqn:Em.
+        -- destruct (proj1 (IH zs) eq_refl) as (r0 & H0 & H1). rewrite H0. split.
+           ++ intros H; inversion H; subst. exists (y :: r0). split; [reflexivity|]. simpl. rewrite Eg, H1. reflexivity.
+           ++ intros (r0' & H0' & H1'). inversion H0'; subst. simpl in H1'. rewrite Eg, H1 in H1'. exact H1'.
+        -- split; [discriminate|]. intros (r0' & H0' & H1').
+           destruct (map_err f l) as [r0|e0]; [|discriminate]. inversion H0'; subst. simpl in H1'. rewrite Eg in H1'.
+           destruct (map_err g r0) as [zs|e1] eqn:E1; [|discriminate].
+           assert (inr e = inl zs :> list B + E) by (apply IH; exists r0; split; [reflexivity | exact E1]). discriminate.
+      * split; [discriminate|]. intros (r0' & H0' & H1').
+        destruct (map_err f l) as [r0|e0]; [|discriminate]. inversion H0'; subst. simpl in H1'. rewrite Eg in H1'. discriminate.
+    + split; [discriminate|]. intros (r0 & H0 & _). discriminate.
+Qed.
+
+(** O4, success: the compliant run is the statement-wise relaxation of the
+    non-compliant run *)
+Theorem O4_all_compliant fa cfg thr P C L1 :
+  O4_dom cfg ->
+  shex fa (with_all_compliant true cfg) thr P C = inl L1 ->
+  exists L0, shex fa (with_all_compliant false cfg) thr P C = inl L0 /\
+             map_err (relax_shape fa cfg) L0 = inl L1.
+Proof.
+  intros Hd. unfold shex.
+  rewrite (map_err_ext _ _ P (fun ce _ => shex_class_all_compliant fa cfg thr C ce Hd)).
+  destruct (map_err (fun x => bind_res _ _) P) as [M1|e] eqn:E1; [|discriminate].
+  apply map_err_bind in E1. destruct E1 as (M0 & E0 & E01). rewrite E0.
+  change (x_remove_empty (with_all_compliant true cfg)) with (x_remove_empty cfg).
+  change (x_remove_empty (with_all_compliant false cfg)) with (x_remove_empty cfg).
+  destruct (x_remove_empty cfg).
+  - intros H. apply map_err_relax_shape_rel in E01.
+    pose proof (clean_shapes_rel _ (relaxed_of_sim fa cfg) (S (List.length M1)) M1 M0 E01) as Hc.
+    rewrite (Forall2_len _ _ _ E01) in Hc at 2. rewrite H in Hc.
+    destruct (clean_shapes (S (List.length M0)) M0) as [L0|e0]; simpl in Hc; [|contradiction].
+    exists L0. split; [reflexivity|]. apply map_err_relax_shape_rel. exact Hc.
+  - intros H; inversion H; subst. exists M0. split; [reflexivity | exact E01].
+Qed.
+
+(** O4, failures: a failing non-compliant run fails in compliant mode too;
+    a compliant run that fails alone does so because some statement of the
+    (uncleaned) non-compliant shapes cannot be commented *)
+Theorem O4_failure_mono fa cfg thr P C e :
+  O4_dom cfg ->
+  shex fa (with_all_compliant false cfg) thr P C = inr e ->
+  exists e', shex fa (with_all_compliant true cfg) thr P C = inr e'.
+Proof.
+  intros Hd Hf. destruct (shex fa (with_all_compliant true cfg) thr P C) as [L1|e'] eqn:E.
+  - destruct (O4_all_compliant fa cfg thr P C L1 Hd E) as (L0 & H0 & _). congruence.
+  - exists e'. reflexivity.
+Qed.
+
+Theorem O4_failure_cause fa cfg thr P C L0 e :
+  O4_dom cfg ->
+  shex fa (with_all_compliant false cfg) thr P C = inl L0 ->
+  shex fa (with_all_compliant true cfg) thr P C = inr e ->
+  exists M0 sh st e', map_err (shex_class fa (with_all_compliant false cfg) thr C) P = inl M0 /\
+                      In sh M0 /\ In st (sh_stmts sh) /\ relax_post fa cfg (sh_n sh) st = inr e'.
+Proof.
+  intros Hd. unfold shex.
+  rewrite (map_err_ext _ _ P (fun ce _ => shex_class_all_compliant fa cfg thr C ce Hd)).
+  destruct (map_err (shex_class fa (with_all_compliant false cfg) thr C) P) as [M0|e0] eqn:E0; [|discriminate].
+  change (x_remove_empty (with_all_compliant true cfg)) with (x_remove_empty cfg).
+  change (x_remove_empty (with_all_compliant false cfg)) with (x_remove_empty cfg).
+  intros H0 H1.
+  destruct (map_err (relax_shape fa cfg) M0) as [M1|e1] eqn:E01.
+  - exfalso.
+    assert (E1 : map_err (fun x => bind_res (shex_class fa (with_all_compliant false cfg) thr C x) (relax_shape fa cfg)) P = inl M1).
+    { apply map_err_bind. exists M0. split; assumption. }
+    rewrite E1 in H1. destruct (x_remove_empty cfg); [|discriminate].
+    apply map_err_relax_shape_rel in E01.
+    pose proof (clean_shapes_rel _ (relaxed_of_sim fa cfg) (S (List.length M1)) M1 M0 E01) as Hc.
+    rewrite (Forall2_len _ _ _ E01) in Hc at 2. rewrite H0, H1 in Hc. exact Hc.
+  - apply map_err_inr in E01. destruct E01 as (sh & Hsh & Hr). unfold relax_shape in Hr.
+    destruct (map_err _ (sh_stmts sh)) as [st|e2] eqn:E2; [discriminate|].
+    apply map_err_inr in E2. destruct E2 as (st & Hst & Hst').
+    exists M0, sh, st, e2. repeat split; assumption.
+Qed.
